@@ -728,7 +728,11 @@ Section Request.
     - apply set_refines; [exact Hwf|]. destruct v; exact Hok.
     - apply del_refines. exact Hwf.
     - split; [apply wf_jar_empty; reflexivity|reflexivity].
-    - apply (update_refines ps None); [apply wf_jar_empty; reflexivity|exact Hok].
+    - destruct (update_refines ps None (wf_jar_empty None eq_refl) Hok) as [Hwf' Heq].
+      replace (cookie_pairs None) with (@nil (str * str)) in Heq by reflexivity.
+      rewrite <- Heq. destruct (jar_update enc None ps) as [st' [u|e]]; cbn [fst snd] in *.
+      + destruct u. split; [exact Hwf'|reflexivity].
+      + split; [exact Hwf|reflexivity].
   Qed.
 
   (* --- any history *)
